@@ -235,7 +235,7 @@ pub fn run(ctx: &mut Ctx) {
     }
     crate::for_each_set!(one);
     ctx.case("nsets", true, "nsets", &format!("{} {}", names.len(), names.join(" ")));
-    let n = if crate::small(ctx) { 60 } else { 600 };
+    let n = if crate::small(ctx) { 60 } else { 300 };
     macro_rules! rnd {
         ($name:expr, $F:ty, $K:ty) => {
             auxb_random::<$F, $K>(ctx, $name, n);
